@@ -14,3 +14,5 @@ pub mod c12;
 pub mod c13;
 pub mod c14;
 pub mod c15;
+#[cfg(feature = "mock")]
+pub mod c16;
